@@ -684,8 +684,12 @@ func allowIFramesRequiresSandbox(c *Ctx, rule string) {
 // itself.  What a builder call adds must not depend on what other tables hold at that moment (a "this rule would be
 // redundant" shortcut that looks at the global rules, a guard keyed on another table): otherwise the policy depends on
 // the order of the calls and not on the set of rules.
-func buildersReadOnlyTheirOwnTables(c *Ctx, rule string) {
+func buildersReadOnlyTheirOwnTables(c *Ctx, rule string, only ...string) {
 	R := c.R
+	onlySet := map[string]bool{}
+	for _, o := range only {
+		onlySet[o] = true
+	}
 	isTable := func(fa *ssa.FieldAddr) bool {
 		pt, ok := fa.Type().Underlying().(*types.Pointer)
 		if !ok {
@@ -707,6 +711,9 @@ func buildersReadOnlyTheirOwnTables(c *Ctx, rule string) {
 			continue
 		}
 		if strings.HasPrefix(fn.Name(), "Sanitize") {
+			continue
+		}
+		if len(onlySet) > 0 && !onlySet[pa.CalleeName(fn)] {
 			continue
 		}
 		writes := map[string]bool{}
@@ -777,7 +784,11 @@ func buildersReadOnlyTheirOwnTables(c *Ctx, rule string) {
 		sort.Strings(bad)
 		R.Check(len(bad) == 0, rule, "builder:"+pa.CalleeName(fn), pa.CalleeName(fn)+": rule tables consulted", c.P.Pos(fn.Pos()), "only the tables it updates", "the builder consults "+strings.Join(bad, ", ")+", a table it does not update: what this call registers depends on what other calls registered before it — the same set of rules can give different policies depending on call order")
 	}
-	R.Role(rule, "exported builders that touch rule tables", n, 8)
+	minN := 8
+	if len(onlySet) > 0 {
+		minN = len(onlySet)
+	}
+	R.Role(rule, "exported builders that touch rule tables", n, minN)
 }
 
 // noPolicyCopies: a Policy is never copied by value.  `q := *p` gives q every map and slice of p by reference: rules
@@ -1751,4 +1762,94 @@ func projectionJoin(v ssa.Value) bool {
 		return false
 	}
 	return walk(j.Common().Args[0], 0)
+}
+
+// declarationKeptOnce (C10.R12, cited as C17.R13): in sanitizeStyles a declaration is appended to the kept list at most
+// once per iteration of the declaration loop — after a rule accepted it the search ends (a `continue` that lost its
+// label goes on with the next rule of the same property, and every further rule that accepts the value appends the
+// declaration again: the output then depends on how many rules were registered, not on what they allow).
+func declarationKeptOnce(c *Ctx, rule, consequence string) {
+	R := c.R
+	fn := c.P.Func("github.com/microcosm-cc/bluemonday", "(*Policy).sanitizeStyles")
+	if fn == nil {
+		R.Unknown(rule, "once", "(*Policy).sanitizeStyles", "", "function not found")
+		return
+	}
+	// the kept list: a []string that is appended to inside a loop and later joined
+	type site struct {
+		cl   *ssa.Call
+		loop map[*ssa.BasicBlock]bool
+		hdr  *ssa.BasicBlock
+	}
+	var sites []site
+	// outermost loops
+	var hdrs []*ssa.BasicBlock
+	for _, h := range fn.Blocks {
+		for _, p := range h.Preds {
+			if h.Dominates(p) {
+				hdrs = append(hdrs, h)
+				break
+			}
+		}
+	}
+	for _, b := range fn.Blocks {
+		for _, in := range b.Instrs {
+			cl, ok := in.(*ssa.Call)
+			if !ok {
+				continue
+			}
+			if ac, _ := model.IsAppend(cl); ac == nil || cl.Type().String() != "[]string" {
+				continue
+			}
+			// the outermost loop containing the append
+			var best map[*ssa.BasicBlock]bool
+			var bh *ssa.BasicBlock
+			for _, h := range hdrs {
+				nl := model.NaturalLoop(h)
+				if nl[b] && (best == nil || len(nl) > len(best)) {
+					best, bh = nl, h
+				}
+			}
+			if best != nil {
+				sites = append(sites, site{cl, best, bh})
+			}
+		}
+	}
+	A := model.NewAnalysis(fn)
+	translateAll(A)
+	n := 0
+	byHdr := map[*ssa.BasicBlock][]site{}
+	for _, s := range sites {
+		byHdr[s.hdr] = append(byHdr[s.hdr], s)
+	}
+	for _, h := range hdrs {
+		ss := byHdr[h]
+		if len(ss) < 2 {
+			continue // a single append site that is not in an inner loop cannot run twice … unless it sits in an inner loop
+		}
+		ev := A.EventVar("declaration-kept-in-this-iteration")
+		A.PhiFilter = func(*ssa.Phi) bool { return false }
+		q, err := A.NewQuery([]int{ev})
+		if err != nil {
+			R.Unknown(rule, "once", "(*Policy).sanitizeStyles", "", err.Error())
+			return
+		}
+		for _, s := range ss {
+			q.Hooks[s.cl] = func(a uint32) []uint32 { return []uint32{q.With(a, ev, true)} }
+		}
+		q.Barrier[h] = true
+		if len(h.Succs) > 0 {
+			q.Run(h.Succs[0], q.InitWith(map[int]bool{ev: false}))
+		}
+		for _, s := range ss {
+			st := q.StateAt(s.cl)
+			if st == nil || pa.Empty(st) {
+				continue
+			}
+			n++
+			ok, _ := q.Holds(st, pa.Not(pa.AtomF(ev)))
+			R.Check(ok, rule, fmt.Sprintf("once:append#%d", n), "(*Policy).sanitizeStyles declaration loop: append of a declaration", c.P.Pos(s.cl.Pos()), "no earlier append in the same iteration", "a declaration that was already kept in this iteration can be kept again (the rule scan goes on after a match): "+consequence)
+		}
+	}
+	R.Role(rule, "appends of declarations in the declaration loop", n, 3)
 }
